@@ -6,3 +6,5 @@ def check(rep, tier):
     from contracts import rules_exact
     rules_exact.run(rep, tier, rules_exact.CLAUSE_PROPS["C07"])
     rules_exact.run(rep, tier, ("X-hess",), which="index")
+    from contracts import rules_scalar
+    rules_scalar.run(rep, tier, adjoint=True)
